@@ -45,10 +45,10 @@ const Prelude = `(set-option :produce-models true)
 (assert (forall ((s Str)) (! (and (>= (slen s) 0) (<= (slen s) 140737488355328)) :pattern ((slen s)))))
 (assert (= (slen str.empty) 0))
 (assert (forall ((s Str)) (! (=> (= (slen s) 0) (= s str.empty)) :pattern ((slen s)))))
-(assert (forall ((a Str) (b Str)) (! (= (slen (str.cat a b)) (+ (slen a) (slen b))) :pattern ((str.cat a b)))))
+(assert (forall ((a Str) (b Str)) (! (=> (<= (+ (slen a) (slen b)) 140737488355328) (= (slen (str.cat a b)) (+ (slen a) (slen b)))) :pattern ((str.cat a b)))))
 (assert (forall ((s Str) (i Int)) (! (and (<= 0 (sbyte s i)) (< (sbyte s i) 256)) :pattern ((sbyte s i)))))
 (assert (forall ((s Str)) (! (= (strdecode (strcode s)) s) :pattern ((strcode s)))))
-(assert (forall ((e (Array Loc Int)) (l Loc) (n Int)) (! (=> (>= n 0) (= (slen (strOf e l n)) n)) :pattern ((strOf e l n)))))
+(assert (forall ((e (Array Loc Int)) (l Loc) (n Int)) (! (=> (and (>= n 0) (<= n 140737488355328)) (= (slen (strOf e l n)) n)) :pattern ((strOf e l n)))))
 (assert (forall ((s Str) (lo Int) (hi Int)) (! (=> (and (<= 0 lo) (<= lo hi) (<= hi (slen s))) (= (slen (str.sub s lo hi)) (- hi lo))) :pattern ((str.sub s lo hi)))))
 (define-fun lref ((l Loc)) Int (l-ref l))
 (define-fun lidx ((l Loc)) Int (l-idx l))
